@@ -17,11 +17,21 @@ INSPECT_ROOTS = ["<ipp::value::IppValue as std::fmt::Display>::fmt", "ipp::value
 
 def call_graph(F):
     g = {}
+    # crate-local iterator types: whoever builds one hands it to a library adaptor (any, map, for ...) that calls its next()
+    iter_next = {}
+    for imp in F.impls:
+        if imp.get("trait") in ("std::iter::Iterator", "core::iter::Iterator") and imp.get("self_adt"):
+            for p in F.hir:
+                if p.startswith("<" + imp["self"].split("<")[0]) and p.endswith("as std::iter::Iterator>::next") or \
+                        (p.endswith("as std::iter::Iterator>::next") and imp["self_adt"] in p):
+                    iter_next[imp["self_adt"]] = p
     for path, body in F.hir.items():
         if body["kind"] not in ("Fn", "AssocFn"):
             continue
         outs = set()
         for n in walk(body["body"]):
+            if n.get("k") == "struct" and n.get("path") in iter_next:
+                outs.add(iter_next[n["path"]])
             if n.get("k") == "mcall":
                 for c in (n.get("resolved"), n.get("callee")):
                     if c in F.hir:
@@ -116,6 +126,7 @@ class Facts_:
         self.ge = set()     # (key(a), key(b)) known a >= b
         self.gt0 = set()    # key(a) known a > 0
         self.boundary = set()  # (key(text), key(offset)) known is_char_boundary
+        self.tight = {}     # key(buffer) -> [bytes demanded by an inequality guard and not yet read, guard text]
         # staleness of length observations: a `len()` / `remaining()` call is an observation made when it is *evaluated*
         # (its position in the trace), not when a condition later mentions its let-bound result
         self.ver = {}       # key(container) -> (bytes consumed by fixed-size reads so far, epoch bumped by any other mutation)
@@ -218,6 +229,9 @@ def apply_cond(fx, c):
                     if lower is not None:
                         if y[0] == "lit" and isinstance(y[1], int):
                             fx.raise_to(K, max(y[1] + lower - used, 0))
+                            if o not in ("Eq", "Ne") and x[1] in ("bytes::Buf::remaining", "bytes::Bytes::len") and used == 0:
+                                # an inequality guard on a wire buffer demands this many bytes: the reads that follow should need them
+                                fx.tight[K] = [y[1] + lower, "%s %s %d is %s" % (x[1].split("::")[-1], o, y[1], pol)]
                         elif used == 0:
                             fx.raise_to(K, 0, key(y))
                         # else: a stale observation compared with a symbolic size proves nothing about what is left now
@@ -260,12 +274,26 @@ def replay(run, F, body, p, T, counts):
         counts[kind] = counts.get(kind, 0) + 1
         run.ob("R-GUARD", "%s: %s #%d" % (short, what, n), ok, detail, site(body, node), key="R-GUARD|%s|%s|%d" % (fn, what, n))
 
+    def settle(K, where, node=None):
+        # the guard asked for more bytes than the fixed-size reads after it consume: a value that is exactly long enough is refused
+        if K in fx.tight:
+            left, text = fx.tight.pop(K)
+            ob("tight-guard", "length guard of %s is exact" % K[:30], left <= 0,
+               "the guard `%s` demands %d byte(s) more than the fixed-size reads that follow it consume before %s: a well-formed value that is exactly long "
+               "enough is rejected" % (text, left, where), node)
+
     for t in p.trace:
         if not is_call(t):
             continue
         stamp = t[4] if len(t) > 4 and isinstance(t[4], int) else len(p.conds)
         while ci < min(stamp, len(p.conds)):
-            apply_cond(fx, p.conds[ci])
+            before = dict((k2, v2[0]) for k2, v2 in fx.tight.items())
+            c_ = p.conds[ci]
+            # a new test of a buffer settles the previous guard on it
+            for K_ in list(fx.tight):
+                if any(is_call(x) and x[1] in LEN_Q and key(x[2][0]) == K_ for x in subterms(c_[1]) ) if isinstance(c_[1], tuple) else False:
+                    settle(K_, "the next length test")
+            apply_cond(fx, c_)
             ci += 1
         name, args = t[1], t[2]
         node = t[3] if len(t) > 3 else None
@@ -281,6 +309,8 @@ def replay(run, F, body, p, T, counts):
                "%s needs %d byte(s) of %s but only >= %d are established on this path [%s] (a shorter value panics inside `bytes`)" % (name, need, K, c0, pc), node)
             fx.lb[K] = (max(c0 - need, 0), set())
             fx.consume(K, need)
+            if K in fx.tight:
+                fx.tight[K][0] -= need
             continue
         if name in T["buf_sym"]:
             K = key(args[0])
@@ -290,6 +320,7 @@ def replay(run, F, body, p, T, counts):
             ok = v is not None and ((v[0] == "lit" and isinstance(v[1], int) and v[1] <= c0) or key(v) in s0)
             ob("buffer-advance", name.split("::")[-1], ok,
                "%s(%s) needs remaining(%s) >= %s; established: >= %d and >= %s [%s]" % (name, tshow(v)[:40], K, tshow(v)[:40], c0, sorted(s0), pc), node)
+            settle(K, "a variable-length read", node)
             fx.mutate(K)
             continue
         if name == "<index>":
@@ -347,6 +378,11 @@ def replay(run, F, body, p, T, counts):
         if name in T["always"] or (name.startswith("macro::") and name.split("::")[-1] in T["panic_macros"]):
             ob("panic", name.split("::")[-1], False, "explicit panic reachable [%s]" % pc, node)
             continue
+        if name == "<assignop>" and len(args) > 3 and args[1][1] == "AddAssign" and args[3][1] in ("u8", "i8", "u16", "i16"):
+            rhs = strip(args[2])
+            ob("arith", "addition", False, "%s += %s on %s can overflow after a few thousand tokens (panics where overflow checks are on) [%s]" % (
+                args[0][1], tshow(rhs)[:40], args[3][1], pc), node)
+            continue
         if name == "<arith>":
             op, a, b, ty = args[0][1], strip(args[1]), strip(args[2]), args[3][1]
             if op == "Sub":
@@ -364,6 +400,27 @@ def replay(run, F, body, p, T, counts):
                 elif not ok:
                     ok = False
                 ob("arith", "subtraction", ok, "%s - %s on %s is not shown to stay in range [%s]" % (tshow(a)[:40], tshow(b)[:40], ty, pc), node)
+            elif op == "Add":
+                # overflow checks are on in debug / test builds: a narrow addition of two run-time values panics there.
+                # usize / u64 / i64 sums of in-memory lengths cannot reach the type's range and are not counted.
+                W = {"u8": 8, "i8": 7, "u16": 16, "i16": 15, "u32": 32, "i32": 31}
+                if ty in W:
+                    def bits(x):
+                        if x[0] == "lit" and isinstance(x[1], int):
+                            return max(x[1], 0).bit_length()
+                        return W[ty]
+                    def src_bits(orig):
+                        # a widening cast of a narrower unsigned value keeps its range
+                        if isinstance(orig, tuple) and orig[0] == "cast":
+                            inner = orig[2]
+                            ity = inner[3].get("ty") if (is_call(inner) and len(inner) > 3 and isinstance(inner[3], dict)) else None
+                            if ity in W and W[ity] < W[ty]:
+                                return W[ity]
+                        return bits(strip(orig))
+                    wa, wb = src_bits(args[1]), src_bits(args[2])
+                    ok = max(wa, wb) + 1 <= W[ty]
+                    ob("arith", "addition", ok, "%s + %s on %s can overflow (panics where overflow checks are on, wraps silently elsewhere) [%s]" % (
+                        tshow(a)[:40], tshow(b)[:40], ty, pc), node)
             elif op in ("Div", "Rem"):
                 ok = b[0] == "lit" and b[1] not in (0, -1)
                 ob("arith", "division", ok, "divisor %s" % tshow(b)[:40], node)
@@ -375,6 +432,13 @@ def replay(run, F, body, p, T, counts):
         if name not in T["buf_queries"] and not name.startswith("<"):
             for a in args:
                 fx.mutate(key(a))
+    while ci < len(p.conds):
+        apply_cond(fx, p.conds[ci])
+        ci += 1
+    r = getattr(p, "ret", None)
+    if isinstance(r, tuple) and r[0] == "ctor" and not r[1].endswith("::Err") and getattr(p, "kind", "") != "try":
+        for K_ in list(fx.tight):
+            settle(K_, "the successful return")
     return
 
 
